@@ -213,7 +213,7 @@ func ruleC13(c *Check, p *Prog) {
 		// data: buf = extract0(ReadFile(file)), bits = B2bitArr(buf)
 		var readFile, b2b *Event
 		jl.Body.Events(func(e *Event, _ []*LoopS) {
-			if e.Kind == "call" && (e.Callee == "io/ioutil.ReadFile" || e.Callee == "os.ReadFile") && len(e.Args) == 1 && e.Args[0] == file {
+			if e.Kind == "call" && (e.Callee == "os.ReadFile") && len(e.Args) == 1 && e.Args[0] == file {
 				readFile = e
 			}
 			if e.Kind == "call" && e.Callee == pkgRoot+".B2bitArr" {
@@ -250,8 +250,14 @@ func ruleC13(c *Check, p *Prog) {
 		rowOK := false
 		rowDetail := fmt.Sprintf("%d go statements in the job loop", len(gos))
 		var sendEv *Event
-		if len(gos) == 1 && gos[0].Closure != nil && S.Equivalent(gos[0].Guard, bodyG) {
-			cs := x.Summarize(gos[0].Closure.Fn, gos[0].Args, gos[0].Closure.Free)
+		if len(gos) == 1 && (gos[0].Closure != nil || gos[0].StaticCallee != nil) && S.Equivalent(gos[0].Guard, bodyG) {
+			// the goroutine body: a closure, or a named function of this module started with `go f(args)`
+			var cs *Summary
+			if gos[0].Closure != nil {
+				cs = x.Summarize(gos[0].Closure.Fn, gos[0].Args, gos[0].Closure.Free)
+			} else {
+				cs = x.Summarize(gos[0].StaticCallee, gos[0].Args, nil)
+			}
 			sends := events(cs.Top, func(e *Event) bool { return e.Kind == "send" })
 			others := events(cs.Top, func(e *Event) bool {
 				return e.Kind != "send" && e.Kind != "alloc" && e.Kind != "store" && e.Kind != "return"
@@ -260,7 +266,8 @@ func ruleC13(c *Check, p *Prog) {
 				sendEv = sends[0]
 				obj := sends[0].Args[1]
 				var nameT *Term
-				cs.Top.Events(func(e *Event, _ []*LoopS) {
+				// the row object is filled in by the goroutine body, or by the job iteration before it starts the goroutine
+				fill := func(e *Event, _ []*LoopS) {
 					if e.Kind == "store" && e.Root == obj && len(e.Path) == 1 {
 						switch f, _ := e.Path[0].StrVal(); f {
 						case ".Name":
@@ -271,7 +278,13 @@ func ruleC13(c *Check, p *Prog) {
 							qT = e.Val
 						}
 					}
-				})
+				}
+				cs.Top.Events(fill)
+				if nameT == nil && pT == nil && qT == nil {
+					if al := objAlloc(sum, obj); al != nil && al.Loop == jl {
+						jl.Body.Events(fill)
+					}
+				}
 				baseOK := nameT != nil && (nameT.Op == "call:path.Base" || nameT.Op == "call:path/filepath.Base") && len(nameT.Args) == 1 && nameT.Args[0] == file
 				if baseOK && pT != nil && qT != nil {
 					rowOK = true
@@ -563,6 +576,7 @@ func checkWriter(c *Check, p *Prog) {
 	type wr struct {
 		e     *Event
 		loops []*LoopS
+		text  *Term // what is written (a string term)
 	}
 	var writes []wr
 	var dones []*Event
@@ -570,8 +584,8 @@ func checkWriter(c *Check, p *Prog) {
 	jl.Body.Events(func(e *Event, loops []*LoopS) {
 		switch {
 		case e.Kind == "recv":
-		case e.Kind == "call" && (e.Callee == "invoke:Write" || e.Callee == "invoke:WriteString") && e.Recv == w:
-			writes = append(writes, wr{e, append([]*LoopS{}, loops...)})
+		case writePiece(S, e, w) != nil:
+			writes = append(writes, wr{e, append([]*LoopS{}, loops...), writePiece(S, e, w)})
 		case e.Kind == "call" && e.Callee == "(*sync.WaitGroup).Done" && e.Args[0] == wg:
 			dones = append(dones, e)
 			if len(loops) > 0 {
@@ -592,7 +606,7 @@ func checkWriter(c *Check, p *Prog) {
 	if len(writes) != 3 {
 		probs = append(probs, fmt.Sprintf("%d writes per row, expected name / values / newline", len(writes)))
 	} else {
-		nameT := unwrap(writes[0].e.Args[0])
+		nameT := unwrap(writes[0].text)
 		if !(nameT == S.mkOp("ld", TString, row, fieldMarker(S, "Name")) && len(writes[0].loops) == 0 && S.Equivalent(writes[0].e.Guard, bodyG)) {
 			probs = append(probs, "the first write is not r.Name")
 		}
@@ -606,7 +620,7 @@ func checkWriter(c *Check, p *Prog) {
 			if l.Trip != pl {
 				probs = append(probs, fmt.Sprintf("the value loop does not run j = 0..len(r.P)-1 (trip %v)", l.Trip))
 			}
-			ft := unwrap(v.e.Args[0])
+			ft := unwrap(v.text)
 			okf := false
 			if ft.Op == "call:fmt.Sprintf" && len(ft.Args) == 3 {
 				f, _ := ft.Args[0].StrVal()
@@ -622,7 +636,7 @@ func checkWriter(c *Check, p *Prog) {
 				probs = append(probs, "value piece is not fmt.Sprintf(\", %0.6f, %0.6f\", r.P[j], r.Q[j])")
 			}
 		}
-		nl, _ := unwrap(writes[2].e.Args[0]).StrVal()
+		nl, _ := unwrap(writes[2].text).StrVal()
 		if nl != "\n" || len(writes[2].loops) != 0 || !S.Equivalent(writes[2].e.Guard, bodyG) {
 			probs = append(probs, "the row is not terminated by one newline")
 		}
@@ -865,4 +879,32 @@ func walkArgs(x *Ext, _ int) []*Term {
 	a := []*Term{mk("walkPath", TString), mk("walkInfo", TRef), mk("walkErr", TRef)}
 	walkArgCache[x] = a
 	return a
+}
+
+// writePiece: the text an event writes to writer w, for the spellings w.Write([]byte(s)), w.WriteString(s),
+// io.WriteString(w, s), fmt.Fprint(w, s) with one string operand and fmt.Fprintf(w, f, args...) (returned as
+// the equivalent fmt.Sprintf term); nil when the event is not a write to w.
+func writePiece(S *Store, e *Event, w *Term) *Term {
+	if e.Kind != "call" {
+		return nil
+	}
+	switch e.Callee {
+	case "invoke:Write", "invoke:WriteString":
+		if e.Recv == w && len(e.Args) == 1 {
+			return e.Args[0]
+		}
+	case "io.WriteString":
+		if len(e.Args) == 2 && e.Args[0] == w {
+			return e.Args[1]
+		}
+	case "fmt.Fprint":
+		if len(e.Args) == 2 && e.Args[0] == w && (e.Args[1].Ty == TString) {
+			return e.Args[1]
+		}
+	case "fmt.Fprintf":
+		if len(e.Args) >= 2 && e.Args[0] == w {
+			return S.mkOp("call:fmt.Sprintf", TString, e.Args[1:]...)
+		}
+	}
+	return nil
 }
